@@ -22,12 +22,14 @@ RULE = ('target = synthetic two-chain complex (complexgen: 3-12 residues per cha
         'svd and quaternion; export on/off with file-backed databases (names ending in letters of ".pdb" included) in a fresh working directory; '
         'databases built from files or from line lists; mobile/target passed as database objects or as file names. Error stream: name given with '
         'only_backbone, unknown method, empty selection on one or both sides, disjoint selections, export with a database built from lines. '
-        'Degenerate selections: one atom, two atoms (collinear). Observed: mobile.get("*") and target.get("*") before/after, the matrix returned by '
+        'Few-atom selections (dedicated family, every case with both methods): exactly three atoms (three backbone atoms of one residue; one atom of three '
+        'residues) = a plane, where the cross-covariance is singular and the reflection guard of the kernel decides, and exactly two atoms (a line), '
+        'on exactly displaced, displaced-and-rounded and jittered copies; plus one-atom selections. Observed: mobile.get("*") and target.get("*") before/after, the matrix returned by '
         'get_rotation_matrix (wrapped, not modified), the files that appeared in the working directory. A case is non-trivial when distinct by '
         '(family, selection, options, number of shared atoms, route).')
 ASSUMPTIONS = ['single-model files (no ENDMDL)',
                'the rotation kernel is a parameter of the model: the harness hands the model the matrix NumPy returned (exact rationals) and checks '
-               'separately that it is orthogonal with determinant +1 within 1e-9 and that the resulting RMSD over the shared selected atoms equals '
+               'separately that it is orthogonal with determinant +1 within 1e-8 -- the motion is fitted as an AFFINE map on four non-coplanar atoms of the whole structure and the signed volume of those four atoms is compared before/after exactly in the Spec driver, so a mirror image is seen -- and that the resulting RMSD over the shared selected atoms equals '
                'the independent optimum (Horn/eigh in complexgen.min_rmsd) within 1e-6 (positional pairing) or 2e-3 (pairing through the exported '
                '3-decimal text)',
                'new coordinates are compared with the model within 1e-8 A (NumPy evaluates mean / dot in binary64, the model in exact rationals)',
@@ -120,9 +122,10 @@ NAMES = [('mobile.pdb', 'target.pdb'), ('decoy_5w.pdb', 'ref.pdb'), ('model_b.pd
 
 
 def mk(target, mobile, sel, family, only_backbone=True, method='svd', export=False, source='file', by_name=False, names=None, expect_error=False,
-       sel_label=''):
+       sel_label='', exact_copy=False):
     return {'op': 'superpose', 'target': target, 'mobile': mobile, 'sel': sel, 'only_backbone': only_backbone, 'method': method, 'export': export,
-            'source': source, 'by_name': by_name, 'names': list(names or NAMES[0]), 'family': family, 'expect_error': expect_error, 'sel_label': sel_label}
+            'source': source, 'by_name': by_name, 'names': list(names or NAMES[0]), 'family': family, 'expect_error': expect_error, 'sel_label': sel_label,
+            'exact_copy': exact_copy}
 
 
 def cases(ctx):
@@ -137,7 +140,9 @@ def cases(ctx):
             export = rng.random() < 0.35
             source = 'file' if export else rng.choice(['file', 'lines'])
             out.append(mk(target.lines(), mobile.lines(), sel, fam, only_backbone=ob, method=rng.choice(['svd', 'quaternion']), export=export,
-                          source=source, by_name=(source == 'file' and rng.random() < 0.2), names=rng.choice(NAMES), sel_label=label))
+                          source=source, by_name=(source == 'file' and rng.random() < 0.2), names=rng.choice(NAMES), sel_label=label,
+                          exact_copy=(fam == 'displaced_exact')))
+    out += few_atom_cases(ctx, ctx.scale(8, 40))
     # degenerate selections
     for k in range(ctx.scale(3, 12)):
         target, mobile = make_pair(rng, rng.choice(['jitter', 'displaced', 'del_mobile']))
@@ -161,14 +166,66 @@ def cases(ctx):
     return out
 
 
-def search_cases(ctx):
+def few_atom_selections(rng, target, mobile):
+    """(selection, label) of exactly three atoms (a plane: the cross-covariance handed to the kernel is singular) and of exactly two atoms
+    (a line), all present in both structures"""
+    common = [r for r in target.residues if len(r['atoms']) >= 4 and
+              any(m['chain'] == r['chain'] and m['resSeq'] == r['resSeq'] and len(m['atoms']) >= 4 for m in mobile.residues)]
+    out = []
+    rs = rng.sample(common, min(2, len(common)))
+    for r in rs[:2]:
+        out.append(({'chainID': [r['chain']], 'resSeq': [r['resSeq']], 'name': rng.choice([['N', 'CA', 'C'], ['CA', 'C', 'O'], ['N', 'C', 'O']])},
+                    'three atoms of one residue'))
+    for ch in target.chains():
+        cr = [r for r in common if r['chain'] == ch]
+        if len(cr) >= 3:
+            trio = rng.sample(cr, 3)
+            out.append(({'chainID': [ch], 'resSeq': sorted(r['resSeq'] for r in trio), 'name': [rng.choice(['CA', 'N', 'O'])]},
+                        'one atom of three residues'))
+            break
+    if rs:
+        r = rs[0]
+        out.append(({'chainID': [r['chain']], 'resSeq': [r['resSeq']], 'name': rng.choice([['CA', 'N'], ['C', 'O'], ['N', 'O']])}, 'two atoms of one residue'))
+    for ch in target.chains():
+        cr = [r for r in common if r['chain'] == ch]
+        if len(cr) >= 2:
+            duo = rng.sample(cr, 2)
+            out.append(({'chainID': [ch], 'resSeq': sorted(r['resSeq'] for r in duo), 'name': ['CA']}, 'one atom of two residues'))
+            break
+    return out
+
+
+def few_atom_cases(ctx, n_complexes, family='few-atoms'):
+    """selections of exactly three / exactly two atoms x both methods; mobiles: exactly displaced copies (must land back as a whole when three
+    atoms are selected), displaced-and-rounded copies, jittered copies"""
     rng = ctx.rng
     out = []
+    for k in range(n_complexes):
+        target = cg.make_complex(rng, hydrogens=rng.random() < 0.3)
+        kind = ['exact', 'exact', 'rounded', 'jitter'][k % 4]
+        if kind == 'exact':
+            mobile = cg.rigid_move(rng, target, exact=True)
+        elif kind == 'rounded':
+            mobile = cg.rigid_move(rng, target)
+        else:
+            mobile = cg.rigid_move(rng, cg.jitter(rng, target, rng.choice([0.2, 0.6])))
+        T, M = target.lines(), mobile.lines()
+        for sel, label in few_atom_selections(rng, target, mobile):
+            for method in ('svd', 'quaternion'):
+                out.append(mk(T, M, sel, family, only_backbone=False, method=method, source=rng.choice(['file', 'lines']), sel_label=label,
+                              exact_copy=(kind == 'exact')))
+    return out
+
+
+def search_cases(ctx):
+    rng = ctx.rng
+    out = few_atom_cases(ctx, 12, family='search-few-atoms')
     for fam in ('del_both', 'window', 'permuted', 'displaced_exact', 'del_mobile', 'del_target'):
         for k in range(12):
             target, mobile = make_pair(rng, fam)
             for ob in (True, False):
-                out.append(mk(target.lines(), mobile.lines(), {}, 'search-' + fam, only_backbone=ob, method=rng.choice(['svd', 'quaternion'])))
+                out.append(mk(target.lines(), mobile.lines(), {}, 'search-' + fam, only_backbone=ob, method=rng.choice(['svd', 'quaternion']),
+                              exact_copy=(fam == 'displaced_exact')))
     return out
 
 
@@ -266,26 +323,33 @@ def xyz_of(table):
     return np.array([[float(unrat(r[7])), float(unrat(r[8])), float(unrat(r[9]))] for r in table], float)
 
 
+def four_noncoplanar(X):
+    """indices of four atoms spanning a volume (greedy: far apart, large area, large volume), or None"""
+    if len(X) < 4:
+        return None
+    i0 = 0
+    i1 = int(np.argmax(((X - X[i0]) ** 2).sum(1)))
+    cr = np.cross(X - X[i0], X[i1] - X[i0])
+    i2 = int(np.argmax((cr ** 2).sum(1)))
+    nrm = np.cross(X[i1] - X[i0], X[i2] - X[i0])
+    vol = np.abs((X - X[i0]) @ nrm)
+    i3 = int(np.argmax(vol))
+    return [i0, i1, i2, i3] if vol[i3] > 1e-2 else None
+
+
 def fit_motion(X, Y):
-    """(A, t) with Y ~ A X + t: an affine fit through four non-coplanar atoms when there are such, otherwise the optimal rigid fit"""
+    """(A, t, idx) with Y ~ A X + t: the AFFINE map through four non-coplanar atoms of the whole structure when there are such (so that a
+    reflection shows up as det A = -1), otherwise the optimal rigid fit (idx None)"""
     n = len(X)
-    if n >= 4:
-        i0 = 0
-        i1 = int(np.argmax(((X - X[i0]) ** 2).sum(1)))
-        cr = np.cross(X - X[i0], X[i1] - X[i0])
-        i2 = int(np.argmax((cr ** 2).sum(1)))
-        nrm = np.cross(X[i1] - X[i0], X[i2] - X[i0])
-        vol = np.abs((X - X[i0]) @ nrm)
-        i3 = int(np.argmax(vol))
-        if vol[i3] > 1e-2:
-            idx = [i0, i1, i2, i3]
-            M = np.linalg.solve(np.hstack([X[idx], np.ones((4, 1))]), Y[idx])
-            return M[:3].T, M[3]
+    idx = four_noncoplanar(X)
+    if idx is not None:
+        M = np.linalg.solve(np.hstack([X[idx], np.ones((4, 1))]), Y[idx])
+        return M[:3].T, M[3], idx
     if n == 0:
-        return np.eye(3), np.zeros(3)
+        return np.eye(3), np.zeros(3), None
     cx, cy = X.mean(0), Y.mean(0)
     R = cg.optimal_rotation(X - cx, Y - cy) if n > 1 else np.eye(3)
-    return R, cy - R @ cx
+    return R, cy - R @ cx, None
 
 
 def driver_line(c, out):
@@ -293,12 +357,14 @@ def driver_line(c, out):
     if 'mobile_before' not in hv:
         return {'op': 'superpose', 'mobile': [], 'target': [], 'mobile_after': [], 'target_after': [], 'sel': c['sel'], 'only_backbone': c['only_backbone'],
                 'export': c['export'], 'kernel': {}, 'backbone': BACKBONE, 'fit_R': [rat(v) for v in np.eye(3).flatten()], 'fit_t': ['0/1'] * 3}
-    A, t = fit_motion(xyz_of(hv['mobile_before']), xyz_of(hv['mobile_after'])) if len(hv['mobile_before']) == len(hv['mobile_after']) \
-        else (np.eye(3), np.zeros(3))
+    A, t, idx = fit_motion(xyz_of(hv['mobile_before']), xyz_of(hv['mobile_after'])) if len(hv['mobile_before']) == len(hv['mobile_after']) \
+        else (np.eye(3), np.zeros(3), None)
     line = {'op': 'superpose', 'mobile': hv['mobile_before'], 'target': hv['target_before'], 'mobile_after': hv['mobile_after'],
             'target_after': hv['target_after'], 'sel': c['sel'], 'only_backbone': c['only_backbone'], 'export': c['export'],
             'kernel': out['kernel'] or {}, 'backbone': BACKBONE,
             'fit_R': [rat(float(v)) for v in A.flatten()], 'fit_t': [rat(float(v)) for v in t]}
+    if idx is not None:
+        line['fit_idx'] = idx
     if c['source'] == 'file':
         line['mobile_file'] = os.path.join('in', c['names'][0])
         line['target_file'] = os.path.join('in', c['names'][1])
@@ -401,6 +467,11 @@ def agree_spec(c, out, spec):
     # one rigid motion for all atoms
     if unrat(spec['orth_defect']) > Fraction(1, 10 ** 8) or unrat(spec['det_defect']) > Fraction(1, 10 ** 8):
         return f'the fitted motion is not a proper rotation: orthogonality defect {float(unrat(spec["orth_defect"])):.3g}, |det-1| {float(unrat(spec["det_defect"])):.3g}'
+    tb, ta = unrat(spec['triple_before']), unrat(spec['triple_after'])
+    if tb != 0 and (ta == 0 or (ta > 0) != (tb > 0)):
+        return f'the mobile structure was mirrored: the signed volume of four of its atoms went from {float(tb):.3f} to {float(ta):.3f}'
+    if tb != 0 and abs(abs(float(ta)) - abs(float(tb))) > 1e-6 * max(1.0, abs(float(tb))):
+        return f'not a rigid motion: the volume spanned by four atoms changed from {float(tb):.6f} to {float(ta):.6f}'
     if unrat(spec['motion_defect']) > Fraction(1, 10 ** 12):
         return f'not one rigid motion: an atom is {math.sqrt(float(unrat(spec["motion_defect"]))):.3g} A away from the motion fitted on four others'
     # optimal on the shared selected atoms
@@ -412,10 +483,18 @@ def agree_spec(c, out, spec):
         tol = 1e-6 if out['route'] == 'positional' else 2e-3
         if got > opt + tol:
             return f'RMSD over the {spec["n_shared"]} shared selected atoms after superposition {got:.6f}, attainable {opt:.6f} (route {out["route"]})'
-        if c['family'] == 'displaced_exact' and spec['n_shared'] >= 3 and len(hv['mobile_after']) == len(hv['target_after']):
-            dev = np.abs(xyz_of(hv['mobile_after']) - xyz_of(hv['target_after'])).max()
-            if rank_of(P) >= 2 and dev > 1e-6:
-                return f'exactly displaced copy does not land back: an atom is off by {dev:.3g} A'
+        # a rigidly displaced copy lands back: ALL atoms, not only the selected ones, as soon as the selection fixes the rotation (rank >= 2)
+        if c.get('exact_copy') and len(hv['mobile_after']) == len(hv['target_after']):
+            A, Bt = xyz_of(hv['mobile_after']), xyz_of(hv['target_after'])
+            if rank_of(Q) >= 2:
+                dev = float(np.abs(A - Bt).max())
+                if dev > 1e-6:
+                    return f'exactly displaced copy does not land back: an atom (selected or not) is off by {dev:.3g} A'
+            else:       # rank < 2: only the selected atoms are pinned down
+                after_sel = {tuple(np.round(p, 6)) for p in Q}
+                sel_dev = max((float(np.abs(a - b).max()) for a, b in zip(A, Bt) if tuple(np.round(b, 6)) in after_sel), default=0.0)
+                if sel_dev > 1e-6:
+                    return f'exactly displaced copy: a selected atom does not land back (off by {sel_dev:.3g} A)'
     return True
 
 
